@@ -7,7 +7,7 @@ Not decided: behaviour of the wrapped function (induction hypothesis).
 """
 from ..program import AnalysisError
 from ..rules import is_call, is_mcall, mentions
-from ..terms import C, Evaluator, G, P, is_t, mk_proj, show, subterms
+from ..terms import C, Evaluator, G, P, is_t, mk_proj, scenarios, show, subterms
 
 GF = "core/generative/generative_function.py"
 SELF_ARGS = ("attr", P("self"), "args")
@@ -24,10 +24,8 @@ GFI = {
 
 
 def leaves(t):
-    """leaves of a phi tree"""
-    if is_t(t, "phi"):
-        return [(c + [(t[1], True)], x) for c, x in leaves(t[2])] + [(c + [(t[1], False)], x) for c, x in leaves(t[3])]
-    return [([], t)]
+    """the term under every outcome of the joins occurring in it (top level, receiver or argument position alike)"""
+    return scenarios(t)
 
 
 def _tagged(t, base):
@@ -97,9 +95,7 @@ def run(chk, prog):
             full = ("bin", "+", SELF_ARGS, P("args"))
             kwm = [x for x in subterms(r.ret) if is_t(x, "bin") and x[1] == "|" and {x[2], x[3]} == {SELF_KW, P("kwargs")}]
             okshape = False
-            for conds, leaf in r.returns:
-                pass
-            rets = [t for _, t in r.returns]
+            rets = [t for _, t in scenarios(r.ret)]
             if m == "__call__":
                 want_plain = ("call", ("attr", ("call", ("attr", SELF_GF, "simulate"), (P("key"), full), ()), "get_retval"), (), ())
                 okshape = len(rets) == 2 and want_plain in rets and any(is_mcall(t, "get_retval") and is_mcall(t[1][1], "simulate") and t[1][1][2][0] == P("key") and is_t(t[1][1][2][1], "tuple") and t[1][1][2][1][1][0] == full and t[1][1][2][1][1][1] in kwm for t in rets)
@@ -188,19 +184,22 @@ def run(chk, prog):
     # function is a STATIC pytree field: it must be one module-level function with the source passed as dynamic data (Pytree.partial(self.source)(f)); a function
     # defined inside handle_kwargs is a new object per call, so two traces of equal keyword closures have different pytree structures (a switch over
     # model(1.0, scale=2.0) and model(2.0, scale=3.0) raises) and values carried by the source (partial_apply) are captured outside the pytree
-    import ast as _ast
-    wrap_calls = [n for n in _ast.walk(fn) if isinstance(n, _ast.Call) and isinstance(n.func, _ast.Call) and _ast.unparse(n.func.func).endswith("Pytree.partial")]
-    nested_defs = [n for n in _ast.walk(fn) if isinstance(n, _ast.FunctionDef) and n is not fn]
-    okw_, derw_ = False, f"{len(nested_defs)} function(s) defined inside handle_kwargs; {len(wrap_calls)} Pytree.partial(...)(f) application(s)"
-    if len(wrap_calls) == 1 and not nested_defs:
-        dyn_ = [_ast.unparse(a_) for a_ in wrap_calls[0].func.args]
-        tgt_ = wrap_calls[0].args[0] if wrap_calls[0].args else None
-        if isinstance(tgt_, _ast.Name) and tgt_.id in sg.module.funcs and dyn_ == ["self.source"]:
-            tf = sg.module.funcs[tgt_.id]
+    # decided on the evaluated method: the result is StaticGenerativeFunction(Closure((self.source,), f)) - however the closure is spelled
+    # (Pytree.partial(self.source)(f), Closure[R]((self.source,), f), through a temporary) - with f a MODULE-LEVEL function
+    rk_ = Evaluator(prog).eval_fn(fn, sg.module, sg)
+    t_ = rk_.ret
+    okw_, derw_ = False, show(t_)[:200]
+    if is_t(t_, "ctor") and t_[1] == "StaticGenerativeFunction" and len(t_[2]) == 1 and is_t(t_[2][0], "ctor") and t_[2][0][1] == "Closure" and len(t_[2][0][2]) == 2:
+        dyn_, f_ = t_[2][0][2]
+        fname = f_[1].rsplit(".", 1)[-1] if is_t(f_, "global") else None
+        if dyn_ == ("tuple", (("attr", P("self"), "source"),)) and fname in sg.module.funcs and f_[1] == sg.module.dotted + "." + fname:
+            tf = sg.module.funcs[fname]
             rt = Evaluator(prog).eval_fn(tf, sg.module)
             pn = [a_.arg for a_ in tf.args.args]
             okw_ = len(pn) == 3 and is_t(rt.ret, "call") and rt.ret[1] == P(pn[0]) and rt.ret[2] == (("star", P(pn[1])),) and dict(rt.ret[3]).get("**") == P(pn[2])
-            derw_ = f"Pytree.partial(self.source)({tgt_.id}); {tgt_.id}({', '.join(pn)}) = {show(rt.ret)[:80]}"
+            derw_ = f"Closure((self.source,), {fname}); {fname}({', '.join(pn)}) = {show(rt.ret)[:80]}"
+        elif not is_t(f_, "global"):
+            derw_ = f"the closure's function is not a module-level function: {show(f_)[:80]}"
     chk.require(okw_, "DELEG-ROLE", "StaticGenerativeFunction.handle_kwargs", "keyword form of a static generative function", derived=derw_,
                 expected="StaticGenerativeFunction(Pytree.partial(self.source)(f)) with a module-level f(source, args, kwargs) = source(*args, **kwargs)", where=chk.where(sg.module, fn))
     r = ev.eval_fn(fn, sg.module, sg)
